@@ -5,6 +5,17 @@ import Driver.Journal
 import Driver.Blob
 import Driver.Bytecode
 import Driver.Jump
+import Driver.Stack
+import Driver.Memory
+import Driver.GasCalc
+import Driver.Precompile
+import Driver.Backend
+import Driver.Eof
+import Driver.Db
+import Driver.Collision
+import Driver.StateDb
+import Driver.Prestate
+import Driver.Bundle
 /-! Line-protocol driver: one request per line on stdin, one reply per line on stdout.
 Stateless components are dispatched on the first token. A stateful component `X` adds a field
 `x : Driver.X.St := Driver.X.St.init` to `DState`, resets it on `begin x …` and threads it through
@@ -15,6 +26,12 @@ structure DState where
   unit : Unit := ()
   gas : Driver.Gas.St := Driver.Gas.St.init
   journal : Driver.Journal.St := Driver.Journal.St.init
+  stack : Driver.Stack.St := Driver.Stack.St.init
+  mem : Driver.Memory.St := Driver.Memory.St.init
+  db : Driver.Db.St := Driver.Db.St.init
+  statedb : StateDb.St := {}
+  prestate : Prestate.St := {}
+  bundle : Driver.Bundle.St := Driver.Bundle.St.init
   -- stateful component states go here
 
 def step (st : DState) (line : String) : DState × String :=
@@ -28,6 +45,23 @@ def step (st : DState) (line : String) : DState × String :=
   | "blob" :: r => (st, Blob.handle r)
   | "bytecode" :: r => (st, Bytecode.handle r)
   | "jump" :: r => (st, Jump.handle r)
+  | "begin" :: "stack" :: _ => let (s, out) := Driver.Stack.begin; ({ st with stack := s }, out)
+  | "stack" :: r => let (s, out) := Driver.Stack.handle st.stack r; ({ st with stack := s }, out)
+  | "begin" :: "mem" :: r => let (s, o) := Memory.begin r; ({ st with mem := s }, o)
+  | "mem" :: r => let (s, o) := Memory.handle st.mem r; ({ st with mem := s }, o)
+  | "gascalc" :: r => (st, GasCalc.handle r)
+  | "precompile" :: r => (st, Precompile.handle r)
+  | "backend" :: r => (st, Backend.handle r)
+  | "eof" :: r => (st, Eof.handle r)
+  | "collision" :: r => (st, Collision.handle r)
+  | "begin" :: "db" :: r => let (s, o) := Db.handle st.db ("begin" :: "db" :: r); ({ st with db := s }, o)
+  | "db" :: r => let (s, o) := Db.handle st.db r; ({ st with db := s }, o)
+  | "begin" :: "statedb" :: r => let (s, out) := StateDb.handle {} ("begin" :: "statedb" :: r); ({ st with statedb := s }, out)
+  | "sdb" :: r => let (s, out) := StateDb.handle st.statedb r; ({ st with statedb := s }, out)
+  | "begin" :: "prestate" :: r => let (s, out) := Prestate.handle {} ("begin" :: "prestate" :: r); ({ st with prestate := s }, out)
+  | "pst" :: r => let (s, out) := Prestate.handle st.prestate r; ({ st with prestate := s }, out)
+  | "begin" :: "bundle" :: r => let (b, out) := Bundle.handleBegin r; ({ st with bundle := b }, out)
+  | "bundle" :: r => let (b, out) := Bundle.handle st.bundle r; ({ st with bundle := b }, out)
   | _ => (st, "bad-op")
 
 partial def loop (hin hout : IO.FS.Stream) (st : DState) : IO Unit := do
